@@ -44,6 +44,11 @@ def jobs(tier, seed):
         add(d, routes=["rev_all", "diff_at_all"])
         add(d, pre=[["eval", "root", "q"]])
         add(d, pre=[["fwd", "root", "q"]], var="x")
+        if tier == "thorough" or not any(k in str(d) for k in ("NthRoot", "Power", "Logarithm")):     # (the costly trees keep their plain warm-cache variants)
+            for i, pre in enumerate(fam.sandwiches(d, second="fwd")):
+                add(d, pre=pre, var="x")
+                if i in (0, 3):
+                    add(d, routes=["diff_at_all"], pre=pre, var="x")
     s = ["share", "s", ["Add", fam.X, fam.Y]]
     extra = [["Multiply", fam.X, fam.Y, fam.Z, fam.X], ["Multiply", fam.X, ["Sine", fam.Y], ["Minus", fam.Z, fam.X]],
              ["Multiply", ["Add", fam.X, fam.Y], ["Add", fam.X, fam.Y]], ["Add", ["Multiply", s, s], ["Exponential", s], ["Divide", fam.X, s]],
@@ -54,6 +59,9 @@ def jobs(tier, seed):
         add(d, routes=["rev_all", "diff_at_all"])
         add(d, pre=[["eval", "root", "q"]])
         add(d, pre=[["rev", "root", "q"]], var="x")
+        if tier == "thorough" or not any(k in str(d) for k in ("NthRoot", "Power", "Logarithm")):
+            for pre in fam.sandwiches(d, second="rev")[:3]:
+                add(d, pre=pre, var="x")
     # one long-lived Differential located at another point first (a table keyed by hash(point) is explored on its colliding path)
     for d in extra[:5]:
         if len(rt.variables_of(d)) == 2:
